@@ -56,6 +56,27 @@ func genC16(seed uint64, tier string) *world.Scenario {
 		total += 1.5 + 14 + float64(256/f.Driver.K+1) + float64(f.Plant.TauMs)/100
 	}
 	sc.Horizon = sec(total + 15)
+	if fr := kernel.NewRand(seed, "c16.faults"); fr.Bool(0.4) {
+		// a transient I/O fault inside an analysis (the RPM-curve measurement gives up on a failed PWM
+		// write or read; the sweep only warns): whatever the controller does about it, analyses stay serial
+		sc.Variant = "analysis-fault"
+		n := fr.Range(1, 2)
+		for j := 0; j < n; j++ {
+			f := sc.Fans[fr.Intn(len(sc.Fans))]
+			ft := world.FaultSpec{Target: "fan:" + f.ID + ":pwm", Nth: fr.Range(0, 256/f.Driver.K), Count: kernel.Pick(fr, 1, 1, 2)}
+			switch fr.Intn(4) {
+			case 0, 1:
+				ft.Op, ft.Kind, ft.OnlyFlags = "write", "error", "initseq,!sweep"
+			case 2:
+				ft.Op, ft.Kind, ft.OnlyFlags = "read", kernel.Pick(fr, "eio", "garbage", "empty"), "initseq,!sweep"
+			default:
+				ft.Op, ft.Kind, ft.OnlyFlags = "write", "error", "sweep"
+				ft.Nth = fr.Range(0, 255)
+			}
+			sc.Faults = append(sc.Faults, ft)
+		}
+		sc.Horizon = sec(2*total + 20) // room for whatever repeats
+	}
 	if r.Bool(0.2) {
 		// long analyses: full 256-step drivers and a rotor that coasts for a long time before
 		// the first measurement (analysis of one fan takes ~5-6 virtual minutes)
@@ -80,6 +101,8 @@ func genC16(seed uint64, tier string) *world.Scenario {
 }
 
 type c16Oracle struct {
+	starting      map[string]bool // controller started, regulation not yet
+	windowOnly    int
 	st            *stage.Stage
 	first         map[string]int
 	last          map[string]int
@@ -87,18 +110,36 @@ type c16Oracle struct {
 }
 
 func (o *c16Oracle) OnEvent(ev *kernel.Event) {
-	if ev.Flags&(kernel.FPwmMapSweep|kernel.FInitSeq) == 0 {
+	if ev.Kind == "yield" {
+		switch ev.Site {
+		case "ctl.startup":
+			o.starting[ev.ID] = true
+		case "ctl.delay":
+			o.starting[ev.ID] = false
+		}
 		return
 	}
-	var fan string
+	var fan, role string
 	switch ev.Kind {
 	case "read", "write":
 		if tg := o.st.W.TargetOfPath(ev.Site); tg != nil && tg.Kind == "fan" {
-			fan = tg.ID
+			fan, role = tg.ID, tg.Role
 		}
 	}
 	if fan == "" {
 		return
+	}
+	// an analysis event is I/O on the fan from inside the functions that make up the analysis, or --
+	// whatever the functions are called -- a PWM value written to the fan between the start of its
+	// controller and the start of its regulation (nothing but the sweep and the RPM-curve measurement
+	// sets PWM values then; the hand-back after a failed start is not analysis)
+	byName := ev.Flags&(kernel.FPwmMapSweep|kernel.FInitSeq) != 0
+	byWindow := o.starting[fan] && ev.Kind == "write" && role == "pwm" && ev.Flags&kernel.FRestore == 0
+	if !byName && !byWindow {
+		return
+	}
+	if byWindow && !byName {
+		o.windowOnly++
 	}
 	if _, ok := o.first[fan]; !ok {
 		o.first[fan], o.firstT[fan] = ev.Seq, ev.T
@@ -115,7 +156,14 @@ func (o *c16Oracle) Finish(st *stage.Stage, res *check.Result) {
 		}
 	}
 	res.ProbeN("fans-analysed", analysed)
+	if o.windowOnly > 0 {
+		res.Probe("analysis-writes-outside-the-named-functions")
+	}
 	if analysed < 2 {
+		if len(st.Sc.Faults) > 0 {
+			res.Probe("fewer-than-2-analyses(fault)")
+			return
+		}
 		res.Harness = fmt.Sprintf("c16: only %d fans were analysed", analysed)
 		return
 	}
@@ -152,6 +200,6 @@ func (o *c16Oracle) Finish(st *stage.Stage, res *check.Result) {
 
 func runC16(t *testing.T, sc *world.Scenario) *check.Result {
 	return runL1(t, sc, func(st *stage.Stage, res *check.Result) []Oracle {
-		return []Oracle{&c16Oracle{st: st, first: map[string]int{}, last: map[string]int{}, firstT: map[string]time.Duration{}, lastT: map[string]time.Duration{}}}
+		return []Oracle{&c16Oracle{starting: map[string]bool{}, st: st, first: map[string]int{}, last: map[string]int{}, firstT: map[string]time.Duration{}, lastT: map[string]time.Duration{}}}
 	})
 }
